@@ -24,7 +24,6 @@ Theorem C09_params_agree : forall fmt_float fmt_time pf pt,
     Forall2 (field_ok_c) (od_query od) (pq v) -> names_distinct str_eqb (od_query od) ->
     Forall2 (field_ok_c) (od_header od) (ph v) -> names_distinct hdr_eq (od_header od) ->
     path_fields_ok fmt_float fmt_time (od_path od) (pp v) ->
-    (bp = [] \/ od_path od <> []) ->
     exists rq, client_request fmt_float fmt_time bp method od v = Some rq /\ parse_request pf pt bp od rq = Ok v.
 Proof. exact client_server_agree_total. Qed.
 Print Assumptions C09_params_agree.
